@@ -324,10 +324,9 @@ impl FileSystem for MemoryFS {
         #[cfg(feature = "verif-hooks")]
         crate::verif_hooks::yield_point("memory::remove_file::write");
         let mut handle = self.handle.write().unwrap();
-        handle
-            .files
-            .remove(path)
-            .ok_or(VfsErrorKind::FileNotFound)?;
+        let file = handle.files.get(path).ok_or(VfsErrorKind::FileNotFound)?;
+        ensure_file(file)?;
+        handle.files.remove(path);
         Ok(())
     }
 
